@@ -364,6 +364,8 @@ pub struct Env {
     pub lit_types: Vec<(u32, usize)>,
     /// ids whose literal width is two words (64-bit typed values usable as switch selectors)
     pub wide_values: Vec<u32>,
+    /// value ids with a tracked int/float type: (id, words of a literal of that type)
+    pub typed_values: Vec<(u32, usize)>,
     /// length of the selected block (for insert points); None = no block selected
     pub block_len: Option<usize>,
     /// grammar-conforming arguments only
@@ -635,7 +637,11 @@ pub fn plan_call(
                         let v = if kind == K::LiteralExtInstInteger {
                             cs.below(100) as u32
                         } else if mi.name.contains("switch") && *pname == "selector" {
-                            if !env.wide_values.is_empty() && cs.below(3) == 0 {
+                            if !env.typed_values.is_empty() && cs.below(3) != 0 {
+                                let (id, w) = env.typed_values[cs.below(env.typed_values.len())];
+                                type_words = w;
+                                id
+                            } else if !env.wide_values.is_empty() && cs.below(3) == 0 {
                                 type_words = 2;
                                 env.wide_values[cs.below(env.wide_values.len())]
                             } else if env.conforming {
